@@ -529,6 +529,134 @@ def dump_read(ctx):
     ctx.floor('DUMP-READ', n, 10)
 
 
+# ------------------------------------------------------------------ open streams
+
+class _Stream(PyStub):
+    """an open binary file-like object with a read position: 0 at the start, 'end' once something has read it through; uber_open_rmode hands it through as it is (not
+    re-opened, not closed), so whoever reads it a second time has to rewind it first"""
+    _isa = ('IOBase', 'BufferedIOBase', 'RawIOBase', 'BufferedReader', 'BytesIO')
+
+    def __init__(self, lines=(), at=0):
+        self.lines, self.at, self.log = list(lines), at, []
+
+    def __enter__(self):
+        return self
+
+    def __exit__(self, *a):
+        return False
+
+    def seek(self, k, whence=0):
+        if whence != 0 or sp.sympify(k) != 0:
+            raise Opaque('seek(%s, %s) on the model stream' % (k, whence))
+        self.at = 0
+        return 0
+
+    def tell(self):
+        if self.at != 0:
+            raise Opaque('tell() on a consumed model stream')
+        return 0
+
+    def seekable(self):
+        return True
+
+    def consume(self, who):
+        """a reader that reads from the current position to the end"""
+        self.log.append((who, self.at))
+        rest = list(self.lines) if self.at == 0 else []
+        self.at = 'end'
+        return rest
+
+    def __iter__(self):
+        return iter(self.consume('iteration'))
+
+    def readlines(self):
+        return self.consume('readlines')
+
+    def read(self):
+        raise Opaque('read() on the model stream')
+
+
+def streams(ctx):
+    """"text given as string, path or open stream": the LAMMPS data-file and dump-file readers go over their source more than once (a scan for the section offsets,
+    then the table reader per section, then the image-flag columns).  A name or a text is opened afresh by every pass; an open file-like object is handed through as it
+    is, so every pass after the first must find it at its start again."""
+    aliases = module_aliases(ctx.mod(LD))
+    funcs = {n.name: n for n in ctx.mod(LD).body if isinstance(n, ast.FunctionDef)}
+    V = symarray('v', (3, 3), real=True)
+    PI = [{'prop_name': 'a_id', 'table_name': 'id'}, {'prop_name': 'atype', 'table_name': 'type'}, {'prop_name': 'pos', 'table_name': ['x', 'y', 'z'], 'unit': UnitKey('UQ', 'length')}]
+    # --- read_atoms (with image flags) and read_velocities on a stream the first pass has read through
+    ra_fn = ctx.fn(LD, 'read_atoms')
+    stream = _Stream(at='end')
+    P = symarray('p', (3, 3), real=True)
+    sysm = Rec('System', box=Rec('Box', vects=V, avect=V[0], bvect=V[1], cvect=V[2]), atoms=Rec('Atoms', pos=P.copy()), natoms=3)
+
+    def amload(style, data, **kw):
+        if isinstance(data, _Stream):
+            data.consume('table reader')
+        return sysm
+
+    class PD(PyStub):
+        def read_csv(self, f, **kw):
+            if isinstance(f, _Stream):
+                f.consume('image-flag reader')
+            return Frame({nm: [sp.Integer(i + 1) if nm == 'id' else sp.Integer(0) for i in range(3)] for nm in kw.get('names')})
+    ev = SymEval(aliases, funcs={'countreadcolumns': funcs['countreadcolumns']} if 'countreadcolumns' in funcs else {})
+    ev.globals = {'atoms_prop_info': lambda a, u: [dict(d) for d in PI], 'amload': amload, 'pd': PD(), 'uber_open_rmode': lambda d: d, 'list': list, 'range': lambda *a: list(range(*[int(x) for x in a]))}
+    try:
+        live = [q for q in ev.run_fn(ra_fn, [stream, sysm, 'AQ', 'UQ', 17, 8], {}) if q.done == 'return']
+    except WouldRaise as e:
+        live, stream.log = [], stream.log + [('raises: %s' % e, None)]
+    except Opaque as e:
+        raise AnalysisError('read_atoms on an open stream: %s' % e)
+    ctx.ob('STREAMS', LD + '::read_atoms', 'an open file-like object the first pass has read through: the table reader and then the image-flag reader each find it at its start', len(live) == 1 and stream.log == [('table reader', 0), ('image-flag reader', 0)],
+           'positions found: %s' % (stream.log,), node=ra_fn, key='stream atoms')
+    rv_fn = ctx.fn(LD, 'read_velocities')
+    stream = _Stream(at='end')
+    ev = SymEval(aliases)
+    ev.globals = {'velocities_prop_info': lambda a, u: ['VPI'], 'amload': amload}
+    try:
+        live = [q for q in ev.run_fn(rv_fn, [stream, sysm, 'AQ', 'UQ', 23], {}) if q.done == 'return']
+    except Opaque as e:
+        raise AnalysisError('read_velocities on an open stream: %s' % e)
+    ctx.ob('STREAMS', LD + '::read_velocities', 'an open file-like object read through by the earlier passes: the table reader of the Velocities section finds it at its start', len(live) == 1 and stream.log == [('table reader', 0)],
+           'positions found: %s' % (stream.log,), node=rv_fn, key='stream velocities')
+    # a name is passed on as it is (nothing to rewind, nothing refused)
+    ev = SymEval(aliases)
+    seen = []
+    ev.globals = {'velocities_prop_info': lambda a, u: ['VPI'], 'amload': lambda style, data, **kw: (seen.append(data) or sysm)}
+    live = [q for q in ev.run_fn(rv_fn, ['file.dat', sysm, 'AQ', 'UQ', 23], {}) if q.done == 'return']
+    ctx.ob('STREAMS', LD + '::read_velocities', 'a file name is handed to the table reader as it is', len(live) == 1 and seen == ['file.dat'], str(seen), node=rv_fn, key='name velocities')
+    # --- the dump-file reader: header scan, then the table reader
+    dfn = ctx.fn(LDD, 'load')
+    dmod = ctx.mod(LDD)
+    dfuncs = {n.name: n for n in dmod.body if isinstance(n, ast.FunctionDef)}
+    pfuncs = {n.name: n for n in ctx.mod(L_DPI).body if isinstance(n, ast.FunctionDef)}
+    L_ = UnitKey('UQ', 'length').sym
+    b = [_sym(a) for a in ('xlo', 'xhi', 'ylo', 'yhi', 'zlo', 'zhi')]
+    cols = ['id', 'type', 'x', 'y', 'z']
+    lines = [Line(['ITEM:', 'TIMESTEP']), Line([sp.Integer(100)]), Line(['ITEM:', 'NUMBER', 'OF', 'ATOMS']), Line([sp.Integer(3)]), Line(['ITEM:', 'BOX', 'BOUNDS', 'pp', 'pp', 'pp']),
+             Line([b[0] / L_, b[1] / L_]), Line([b[2] / L_, b[3] / L_]), Line([b[4] / L_, b[5] / L_]), Line(['ITEM:', 'ATOMS'] + cols)] + [Line([sp.Integer(i)] + [_sym('c%d_%d' % (k, i)) for k in range(4)]) for i in (3, 1, 2)]
+    stream = _Stream(lines)
+    rec = []
+    ev = SymEval(module_aliases(dmod), funcs={k: v for k, v in dfuncs.items() if k in ('matchprops',)})
+    ev.funcs.update(pfuncs)
+
+    def amload2(style, data, **kw):
+        if isinstance(data, _Stream):
+            data.consume('table reader')
+        return kw.get('system')
+    ev.globals = dict(_ctor_globals(rec), style=StyleMod(), uc=UC(), uber_open_rmode=lambda d: d, amload=amload2, indexstr=indexstr, OrderedDict=dict, deepcopy=lambda x: [dict(d) for d in x], **_builtins())
+    try:
+        live = [q for q in ev.run_fn(dfn, [stream], dict(lammps_units='UQ', symbols=('Al',))) if q.done == 'return']
+    except WouldRaise as e:
+        live, stream.log = [], stream.log + [('raises: %s' % e, None)]
+    except Opaque as e:
+        raise AnalysisError('atom_dump.load on an open stream: %s' % e)
+    ctx.ob('STREAMS', LDD + '::load', 'an open file-like object: the header scan reads it from where it stands, the table reader then finds it at its start again', len(live) == 1 and stream.log == [('iteration', 0), ('table reader', 0)],
+           'positions found: %s' % (stream.log,), node=dfn, key='stream dump')
+    ctx.floor('STREAMS', 4, 4)
+
+
 # ------------------------------------------------------------------ POSCAR
 
 def poscar_read(ctx):
@@ -655,4 +783,4 @@ def run(ctx):
     # what is loaded is what the writers wrote: the writer-side obligations that a round trip rests on (the header form follows the exact tilts, the column table the
     # caller passes to both writer and reader is not altered by the writer) are decided here too
     from . import c07
-    ctx.run_rules([tables_agree, data_read, table_read, dump_read, poscar_read, poscar_roundtrip, api, c07.data_file, c07.dump_file, c07.resolvers, c07.tables, c07.poscar, lambda c: c07.returned_table(c, "TABLE-READ")])
+    ctx.run_rules([tables_agree, data_read, table_read, dump_read, streams, poscar_read, poscar_roundtrip, api, c07.data_file, c07.dump_file, c07.resolvers, c07.tables, c07.poscar, lambda c: c07.returned_table(c, "TABLE-READ")])
